@@ -68,6 +68,14 @@ pub fn parse_6bit_ascii(
     size: usize,
 ) -> IResult<(&[u8], usize), AsciiString> {
     let char_count = size / 6;
+    #[cfg(all(not(feature = "std"), not(feature = "alloc")))]
+    if char_count > MAX_6BIT_ARRAY_BYTES {
+        // more characters than the fixed-capacity buffer holds: an error, not a panic
+        return Err(nom::Err::Failure(nom::error::Error::new(
+            input,
+            ErrorKind::TooLarge,
+        )));
+    }
     #[cfg(any(feature = "std", feature = "alloc"))]
     let (input, bytes) = count(map_res(take_bits(6u8), sixbit_to_ascii), char_count)(input)?;
     #[cfg(all(not(feature = "std"), not(feature = "alloc")))]
